@@ -21,7 +21,8 @@ Definition oputs (c0 n : N) (ds : list N) : list oevent := map (fun c => OPut c 
 
 Record input := mk_input { i_shard : bool; i_rmin : Z; i_rmax : Z; i_limit : N; i_maxlinks : N; i_local : bool;
                            i_allocs : list (option (list N)); i_putf : list (N * N * outcome); i_pinf : list N;
-                           i_stream : list block; i_root : N }.
+                           i_stream : list block; i_root : N; i_abort : bool }.
+(* i_abort: the importer returned an error although its last DAGService.Add succeeded (Finalize never called) *)
 
 Definition mkb (c s : N) (l : list N) : block := mkblock c s l false.
 Definition mkbs (c s : N) (l : list N) : block := mkblock c s l true.
@@ -105,10 +106,12 @@ Definition event_eqb (a b : event) : bool :=
   end.
 
 Definition err_class (e : err) : N :=
-  match e with EAllocFail => 1 | EPutFail => 2 | EPinFail => 3 | ETooBig => 4 | ENilShard => 4 | EPanic => 5 | EFuel => 9 end.
+  match e with EAllocFail => 1 | EPutFail => 2 | EPinFail => 3 | ETooBig => 4 | ENilShard => 4 | EPanic => 5 | EFuel => 9 | EImporter => 4 end.
 
 Definition run (i : input) : result * list event :=
-  if i_shard i then shard_run (env_of i) (i_stream i) (i_root i) else single_run (env_of i) (i_stream i) (i_root i).
+  if i_abort i then
+    (if i_shard i then shard_run_aborted (env_of i) (i_stream i) else single_run_aborted (env_of i) (i_stream i))
+  else if i_shard i then shard_run (env_of i) (i_stream i) (i_root i) else single_run (env_of i) (i_stream i) (i_root i).
 
 (* a MultiCall to zero destinations issues no call: such a round cannot be observed (it is always the
    last round of a run: BlockAdder.Add fails on it) *)
@@ -118,7 +121,7 @@ Definition model_eqb (i : input) (o : ores) (os : list oevent) (tbl : list (N * 
   let '(r, evs) := run i in
   (match r, o with
    | ROk c, OOk c' => cid_eqb c (res tbl c')
-   | RErr er, OErr k => N.eqb (err_class er) k
+   | RErr er, OErr k => i_abort i || N.eqb (err_class er) k   (* which error the importer reports after aborting is its own business *)
    | _, _ => false
    end) && list_eqb event_eqb (filter visible evs) (to_events (env_of i) tbl os 0 0 0).
 
@@ -283,11 +286,15 @@ Definition result_of (tbl : list (N * list N)) (o : ores) : result :=
 (* flags: numbers (>= 20) of the Go-side differential checks of the real-file-tree part that failed (see docs/C13.md) *)
 Definition case := (N * (input * (ores * list oevent * list (N * list N)) * list N))%type.
 
+(* known finding 1 (shape): the importer went on after DAGService.Add returned an error for some block *)
+Definition is_swallow (i : input) : bool := existsb bswallow (i_stream i).
+
 Definition check_case (c : case) : list (N * N * N) :=
   let '(id, (i, (o, os, tbl), flags)) := c in
   let r := result_of tbl o in
   let t := to_events (env_of i) tbl os 0 0 0 in
-  let f (code : N) (b : bool) := if b then [] else [(id, code, 0)] in
+  let tag : N := if is_swallow i then 1 else 0 in
+  let f (code : N) (b : bool) := if b then [] else [(id, code, if N.eqb code 1 then 0 else tag)] in
   f 1 (model_eqb i o os tbl)
   ++ f 10 (delivered_okb i r t)
   ++ f 11 (partition_okb i r t)
@@ -295,6 +302,6 @@ Definition check_case (c : case) : list (N * N * N) :=
   ++ f 13 (depth_okb i r t)
   ++ f 14 (final_pins_okb i r t && kept_all os)
   ++ f 15 (failure_okb i r t)
-  ++ map (fun k => (id, k, 0)) flags.
+  ++ map (fun k => (id, k, tag)) flags.
 
 Definition failing (cs : list case) : list (N * N * N) := flat_map check_case cs.
